@@ -217,6 +217,7 @@ class StaleFlow(Flow):
         self.lc = lc
         self.entry = entry
         self.allowed_seeds = set(allowed_seeds)   # {(method qualname, key)}
+        self.seeded_ok = set()
         self.max_depth = max_depth
         self.stale_cause = {}      # lazy -> (field, node, finfo) that made it stale
         self.events = []           # log of (kind, name, loc)
@@ -239,6 +240,10 @@ class StaleFlow(Flow):
     # ---- events ----------------------------------------------------------------
     def ev_write(self, field, node, s):
         for L in self.lc.dependents(field):
+            # an allowed seed of this method states the value the getter computes from the method's FINAL state: the
+            # order of the seed and of the other state writes inside the method does not matter
+            if (self.cur.qualname, L) in self.seeded_ok:
+                continue
             if s.get(L, F) == F:
                 s[L] = S
                 self.stale_cause.setdefault(L, (field, node, self.cur))
@@ -269,6 +274,7 @@ class StaleFlow(Flow):
         s[key] = F
         if (self.cur.qualname, key) in self.allowed_seeds or \
                 (self.cur.name, key) in self.allowed_seeds:
+            self.seeded_ok.add((self.cur.qualname, key))
             return
         # a seed whose value is not what the getter computes is a state change
         self.bad_seeds.append((key, node, self.cur))
